@@ -24,6 +24,7 @@ struct Conflict {
 };
 struct RunStats {
     long regions = 0, epochs = 0, multi_epochs = 0, blocks = 0, accesses = 0, granules = 0, pair_checks = 0;
+    long dynamic_chunks = 0; // chunks handed out by dynamically scheduled loops
     long critical_sections = 0; // passes through the unnamed critical section
     long conflicts = 0, writer_epochs = 0; // epochs in which >= 2 members wrote
     long memops = 0, quarantined = 0, audit_blocks = 0, audit_unlogged_bytes = 0;
